@@ -168,4 +168,56 @@ theorem textinput_cursor_at_grapheme_partial {G : Type} (width : G → Int) (hw 
       · right; exact hh
     simp [h0, this]
 
+/-- **With room for the scroll margin the cursor is always drawn at its grapheme.**  If graphemes are at most two
+columns wide (as terminal graphemes are) and the window has more than six columns after the prompt, then for every
+text, cursor and scroll state the drawn cursor column is the prompt's end plus the display width of the visible
+graphemes before the cursor.  (Six = the three graphemes before the one in front of the cursor that "scroll toward
+the beginning" can pull into view, two columns each; `Witness.F517`: at six columns it fails.) -/
+theorem textinput_cursor_at_grapheme_wide {G : Type} (width : G → Int) (hw : ∀ g, 0 ≤ width g) (hw2 : ∀ g, width g ≤ 2)
+    (m : TI G) (prompt : List G) (winW : Int) (h : TIInv m) (m' : TI G) (c col : Int)
+    (hd : draw width m prompt winW = .shown m' c) (hp : promptLoop width winW prompt 0 = some col)
+    (hroom : col + 6 < winW) :
+    c = cursorAtGrapheme width col (m.content.drop m'.offset.toNat) (m.cursor - m'.offset).toNat := by
+  refine (textinput_cursor_at_grapheme_partial width hw m prompt winW h m' c col hd hp).1 ?_
+  obtain ⟨col', off, off0, hp', hoff0, hs, hm'⟩ := draw_shape_offset width m prompt winW m' c hd
+  rw [hp] at hp'
+  cases hp'
+  obtain ⟨h0, h1, ho⟩ := h
+  have hle := VaxisModel.Lemmas.TextInput.scrollLoop_le width m.content m.cursor col winW _ _ off hs
+  have hoff0' : 0 ≤ off0 := by rcases hoff0 with e | e <;> omega
+  have hpost := scrollLoop_post width m.content m.cursor col winW _ _ off hs
+  by_cases hfire : m.cursor - 4 - off < 0
+  · -- scrolled back: at most four graphemes between the offset and the cursor
+    have hk : (m.cursor - m'.offset).toNat ≤ 4 := by
+      rw [hm']; simp only [hfire, if_true]; split <;> omega
+    have hb := textWidth_take_le width hw2 (m.content.drop m'.offset.toNat) ((m.cursor - m'.offset).toNat - 1)
+    right
+    omega
+  · -- not scrolled back: the forward loop left the text up to the cursor inside the window
+    have hmo : m'.offset = off := by
+      rw [hm']; simp only [hfire, if_false]; split <;> omega
+    have hlt : off < m.cursor := by omega
+    have hfit : widthToCursor width m.cursor off m.content 0 0 + col + 4 < winW := by
+      apply Int.lt_of_not_ge
+      intro hge
+      exact hpost ⟨hlt, hge⟩
+    have hskip := widthToCursor_skip width m.cursor off m.content 0 0 (by omega)
+    have hge := widthToCursor_ge_past width hw m.cursor off (m.content.drop (off - 0).toNat) off 0 (Int.le_refl _)
+    have e : (off - 0).toNat = off.toNat := by simp
+    rw [e] at hskip hge
+    rw [← hskip] at hge
+    have hmono := textWidth_take_mono width hw (m.content.drop off.toNat) ((m.cursor - off).toNat - 1)
+    have hk1 : (m.cursor - off).toNat - 1 + 1 = (m.cursor - off).toNat := by omega
+    rw [hk1] at hmono
+    right
+    rw [hmo]
+    omega
+
+/-- Non-vacuity (and a caveat): four wide graphemes, cursor at the end, seven columns, no prompt — the hypotheses
+hold and the cursor column is 8, its grapheme's column, which lies beyond the 7-column window (the graphemes at the
+right edge were replaced by the truncator). -/
+example : (match draw (fun _ : Nat => 2) ⟨[1, 2, 3, 4], 4, 0, []⟩ [] 7 with
+     | .shown m' c => decide (m'.offset = 0 ∧ c = 8)
+     | _ => false) = true := by decide
+
 end VaxisModel.Props.C17Ext
